@@ -24,7 +24,8 @@
      - the conductor mutex: an entry point runs with the mutex held; a destructor the conductor runs itself is
        `dtor_locked`; if that destructor would lock the mutex again the operation's outcome is Hang.
    Definitions only. *)
-Require Import V.Base.MachineInt V.Generated.GenConsts.
+Require Import V.Base.MachineInt.
+Require Import V.Generated.GenConsts.
 Open Scope Z_scope.
 
 Inductive kind := KPub | KXPub | KSub | KCtr | KDest.
